@@ -32,3 +32,28 @@ TEXT["C08"] = dict(
     level="Exploration: thousands of random code trees (<= 14 points, depth <= 4, all atom kinds) with planted occurrences and near misses; every list-surgery instruction and every Item::* indexing function is compared with an independent preorder-flattening reference at every point index in [-2S,2S] and at MIN/MAX; the statement's equations are also checked as follow-up executions.",
     note="Reference (refm.rs) trusted. CODE.MEMBER is judged only on the two implications every reading of its (copied) documentation shares; CODE.= on items that print alike but differ structurally is a don't-care.",
 )
+TEXT["C03"] = dict(
+    technique="runtime monitoring: crash monitor + structural differential oracle (independent token classification / tree builder) over exhaustive short token sequences, hostile random strings and random balanced trees, debug+release",
+    level="Exhaustive for all token sequences up to length 5 (7 thorough) over a hostile 8-token alphabet; exploration beyond (tens of thousands of hostile strings and balanced trees with all atom kinds, Unicode whitespace, multi-byte tails, 10^4-byte tokens, deep nesting). For balanced inputs the EXEC stack is compared structurally with the tree the text describes; for all inputs no panic and no change to any other stack.",
+    note="Integer/float lexical well-formedness is defined by Rust's from_str (same as the parser uses); empty-payload vector literals are a documented don't-care.",
+)
+TEXT["C16"] = dict(
+    technique="runtime monitoring: operation-history checker against an executable sequential model (Vec), exhaustive small scope + long random histories, unique element ids",
+    level="Exhaustive for every history of length <= 3 (4 thorough) over 79 operation instances of the whole public API from two start states; random histories of 300 ops beyond. After every operation return value, full contents and printed form are compared with the model.",
+    note="`swap(i,j)` (raw vector indices, not in the statement) is left out. last_eq is modelled as documented (shallow for Items).",
+)
+TEXT["C17"] = dict(
+    technique="runtime monitoring: history checker against a bounded-sequence model + representation-invariant hook (verif_cursors) + differential step monitor for INPUT/OUTPUT instructions",
+    level="Exhaustive for all histories of length <= 6 (8 thorough) over {push, push_force, pop, flush} on capacities 1..5, both kinds; long random histories with many wrap-arounds; all read operations evaluated after every op; cursor invariant asserted at every quiescent point; INPUT/OUTPUT instruction sequences against a FIFO model.",
+    note="OUTPUT.WRITE on a full queue is dropped by the documented plain-push rule; such drops are counted in the evidence, not flagged.",
+)
+TEXT["C18"] = dict(
+    technique="runtime monitoring: history checker against a set-based model keyed by returned ids (API) + differential step monitor (GRAPH.* instructions), snapshot-independence monitor",
+    level="Exhaustive for all API histories of length <= 3 (4 thorough) on 3 node slots + a never-issued id; random histories of 200 ops on 12 slots; instruction histories with valid / stale / bogus ids and history depths {-1,0,..,size,MAX}. After every op structure, getters, filter, sizes, all earlier snapshots and diff are compared with the model.",
+    note="Query results are compared as sets (HashMap order is free); diff on graphs with NaN weights is a don't-care.",
+)
+TEXT["C20"] = dict(
+    technique="runtime monitoring: exhaustive-grid differential monitor against an integer brute-force oracle + metamorphic monitors (symmetry, monotonicity, bijection) + differential step monitor for LIST.NEIGHBOR*",
+    level="Exhaustive on the stated grid: every (ntotal <= 130, ndim <= 4, index, 11 radii) in quick, ntotal to 1100 (all perfect powers) and ndim to 6 in thorough; symmetry over all pairs; decomposition bijection on every hypercube up to 20000 (300000) cells.",
+    note="Points whose exact distance is within 1e-5 (relative) of the radius are don't-cares (f32 rounding of sqrt).",
+)
